@@ -823,11 +823,44 @@ class C16(Prop):
     technique = ("Rocq proof about an executable model of the loader AND of the nuscenes-devkit calls it makes (tables as lists of records, "
                  "rational unit quaternions); in-Coq correspondence on dataset directories written by the harness and loaded by the real "
                  "load_all_datasets")
-    level_text = "TODO"
-    level_note = "TODO"
-    rule = "TODO"
-    assumptions = []
-    not_proved = []
+    level_text = ("Theorems (Props/C16.v, closed under the global context) about load = the model of load_all_datasets + the devkit calls it makes, "
+                  "for ALL datasets of any size, both frame ids, detection/tracking/sensing, merge on/off: every successful load has one frame per "
+                  "sample in sample-TABLE order, named by its index, with the sample's timestamp; the j-th object of a frame is made from the j-th "
+                  "annotation of the sample (table order) and carries its instance token, LabelConverter label of the category name (C14 facts "
+                  "re-proved on the regenerated tables: registered names, UNKNOWN otherwise, merge map), attribute names, (w,l,h) size, point count, "
+                  "Visibility.from_value of the level (always an enum member), timestamp and frame id; map frame = the annotated pose exactly; "
+                  "base_link frame = the pose moved by the inverse ego pose and the inverse lidar calibration of the sample's lidar key frame "
+                  "(= inverse ego pose alone when the lidar is calibrated at the ego origin); for well-formed datasets the transform stored under "
+                  "(BASE_LINK, MAP) is that ego pose for both frame ids and maps every base_link pose onto the map pose (position and quaternion "
+                  "component-wise); tracking histories are exactly the prev-chain of the same instance, global poses as annotated, < 3.15 s old, at most "
+                  "6, maximal; no history for other tasks. Correspondence: dataset directories written by the harness and loaded by the real "
+                  "load_all_datasets, compared inside Coq with the model on the same tables.")
+    level_note = ("WEAKEST TIE OF ALL PROPERTIES: nuscenes-devkit (NuScenes.__init__/reverse index/get/get_sample_data/get_boxes/Box.translate/rotate, "
+                  "PredictHelper._iterate), json parsing and file I/O are MODELLED from reading their source, not translated; the model is tied to the "
+                  "code only by this run's correspondence (generated directories, 1-8 samples) and by nothing for inputs outside the generator "
+                  "(duplicate tokens, non-unit quaternions, camera/TLR sample_data, non-key-frame interpolation, 2D tasks, fp_validation, prediction, "
+                  "load_raw_data=True). Exceptions are compared by type only. Trusted: Coq kernel+vm_compute, translator for the label/enum tables, "
+                  "the harness' writer of the JSON tables and its observation of FrameGroundTruth/DynamicObject attributes.")
+    rule = ("per case one generated dataset directory (1-8 samples in time or shuffled table order, 0-6 instances appearing/disappearing with prev/next "
+            "chains, 1-5 categories registered/unregistered/case variants, 0-4 attributes, 1-6 visibility levels incl. aliases or an empty table, 1-3 "
+            "sensors with LIDAR_TOP and/or LIDAR_CONCAT, key and non-key sample_data, rational unit quaternions, k/8 translations, identity or general "
+            "lidar calibration) loaded under 4 (first two cases: all 12) configurations covering both frame ids x tracking/non-tracking with random "
+            "merge flag; boundary stream: sample spacing exactly 3.15 s +- 1 us, > 6 preceding samples, empty visibility table, no objects, single "
+            "sample; malformed stream (model tie only): 13 single faults -> KeyError/ValueError/DatasetLoadingError. Compared: number/order/names/"
+            "timestamps of frames, per-frame object uuids in order, labels, kept names, attributes, sizes (exact), point counts, visibility, positions "
+            "and orientations (1e-9, orientation up to sign), frame ids, the stored (BASE_LINK, MAP) matrix and every stored transform, tracking "
+            "histories. non-trivial = well-formed, >= 2 samples and some instance annotated in >= 2 samples")
+    assumptions = ["unique tokens, resolving references, unit quaternions (wf) for the transform and history theorems; the frame/object/pose theorems "
+                   "hold for every successful load",
+                   "Quaternion.inverse = conjugate (unit quaternions); pyquaternion's implicit normalisation not modelled",
+                   "PredictHelper's float window test abs(dt)/1e6 < 3.0+0.15 == integer test |dt| < 3150000 us (exercised at 3149999/3150000/3150001)",
+                   "implementation receives the nearest binary64 of the rational inputs; poses compared within 1e-9"]
+    not_proved = ["the devkit, JSON parsing and file I/O themselves (modelled from source, validated by this correspondence only)",
+                  "velocities (_get_box_velocity / box_velocity: only their table look-ups are modelled, for the exception behaviour), raw data loading",
+                  "2D tasks (_sample_to_frame_2d), fp_validation label check, prediction; camera sample_data and the averaged traffic-light transform "
+                  "(Err Unmodelled in the model)",
+                  "in the base_link frame the tracking history is NOT moved to the ego frame: the implementation returns the global annotated poses "
+                  "(PredictHelper ignores in_agent_frame when just_xy=False); the theorem states exactly that"]
 
     def correspondences(self):
         return [LoadCorr()]
@@ -836,5 +869,5 @@ class C16(Prop):
         cleanup_all()
 
 
-READY = False
+READY = True
 PROP = C16()
